@@ -454,3 +454,78 @@ Proof.
   - inversion H; subst; assumption.
   - destruct (step s e) as [s1|] eqn:E; [|discriminate]. eapply IH; [eapply aux_step; eauto|assumption].
 Qed.
+
+Lemma saved_tokens_safe : forall s q t, aux s -> In q (items s) -> q_saved q = true -> In t (c_toks (q_chunk q)) ->
+  In t (flat_map c_toks (files s)) \/ In t (flat_map c_toks (acked s)).
+Proof.
+  intros s q t Hs Hq Hsv Ht. destruct (aK _ Hs q Hq Hsv) as [H|H]; [left|right]; apply in_flat_map; eauto.
+Qed.
+Ltac in_items := unfold items; rewrite !in_app_iff;
+  first [ left; eapply tf_head_in; eassumption
+        | right; left; eapply tf_head_in; eassumption
+        | right; right; left; eapply tf_head_in; eassumption
+        | right; right; right; left; eapply tf_head_in; eassumption
+        | right; right; right; right; eapply tf_head_in; eassumption ].
+Lemma remove_file_toks : forall c0 fl t, In t (flat_map c_toks fl) ->
+  In t (flat_map c_toks (remove_file c0 fl)) \/ In t (c_toks c0).
+Proof.
+  intros c0 fl t H. apply in_flat_map in H. destruct H as [c [Hc Ht]].
+  destruct (chunk_eq_dec c c0) as [->|N]; [right; assumption|left]. apply in_flat_map. exists c. split; [|assumption].
+  apply remove_file_in. tauto.
+Qed.
+Lemma step_anywhere : forall s e s', aux s -> step s e = Some s' -> forall t, In t (anywhere s) -> In t (anywhere s').
+Proof.
+  intros s e s' Hs H t Ht. destruct e; step_inv H; guards.
+  all: unfold_locs; split_facts t; norm_mem.
+  all: try tauto.
+  all: try (match goal with E : persist _ _ _ _ = _ |- _ => apply persist_spec in E;
+            destruct E as [[? [-> ->]]|[[? [? [-> ->]]]|[? [? [-> ->]]]]]; norm_mem; try tauto end).
+  all: try (match goal with Hsv : q_saved ?q = true, Hs : aux ?s |- _ =>
+              assert (X : In t (c_toks (q_chunk q)) -> In t (flat_map c_toks (files s)) \/ In t (flat_map c_toks (acked s)))
+                by (apply saved_tokens_safe; [assumption|in_items|assumption]); tauto end).
+  - assert (X : In t (c_toks (q_chunk q)) -> In t (flat_map c_toks (acked s))) by (intros; apply in_flat_map; eauto).
+    pose proof (remove_file_toks (q_chunk q) (files s) t) as Y. destruct (q_saved q); tauto.
+  - destruct Ht as [[Ht|Ht]|Ht]; [exfalso|tauto|tauto].
+    match goal with Hp : phase _ = Stopped |- _ => apply (proj1 (aJ _ Hs Hp) t) end. unfold transit. norm_mem. tauto.
+Qed.
+
+Lemma step_origin : forall s e s', step s e = Some s' -> forall t, In t (anywhere s') -> In t (anywhere s) \/ e = EIngest t.
+Proof.
+  intros s e s' H t Ht. destruct e; step_inv H; guards.
+  all: unfold_locs; split_facts t; norm_mem.
+  all: try tauto.
+  all: try (match goal with E : persist _ _ _ _ = _ |- _ => apply persist_spec in E;
+            destruct E as [[? [-> ->]]|[[? [? [-> ->]]]|[? [? [-> ->]]]]]; norm_mem; try tauto end).
+  - destruct Ht as [[[[Ht|[<-|[]]]|Ht]|Ht]|Ht]; tauto.
+  - assert (X : In t (flat_map c_toks (if q_saved q then remove_file (q_chunk q) (files s) else files s)) -> In t (flat_map c_toks (files s))).
+    { destruct (q_saved q); [|tauto]. intros X. apply in_flat_map in X. destruct X as [c [Hc Hin]].
+      apply remove_file_in in Hc. apply in_flat_map. exists c. tauto. }
+    tauto.
+  - assert (X : In t (flat_map (fun q : qitem => c_toks (q_chunk q)) (recovered_queue (files s))) -> In t (flat_map c_toks (files s))).
+    { unfold recovered_queue. rewrite sort_items_flat. intros X. apply in_flat_map in X. destruct X as [q [Hq Hin]].
+      apply in_map_iff in Hq. destruct Hq as [c [<- Hc]]. apply in_flat_map. exists c. tauto. }
+    tauto.
+Qed.
+
+Lemma step_ingested : forall s e s', step s e = Some s' ->
+  ingested s' = ingested s \/ exists t, e = EIngest t /\ ingested s' = t :: ingested s.
+Proof.
+  intros s e s' H. destruct e; step_inv H; unfold_locs; try (left; reflexivity).
+  all: try (destruct o; left; reflexivity).
+  right. eexists. split; reflexivity.
+Qed.
+
+Lemma step_filtered : forall s e s', step s e = Some s' ->
+  (forall t, In t (filtered s) -> t_keep t = false) -> forall t, In t (filtered s') -> t_keep t = false.
+Proof.
+  intros s e s' H IH t Ht. destruct e; step_inv H; unfold_locs; try (apply IH; assumption).
+  all: try (destruct o; apply IH; assumption).
+  apply in_app_iff in Ht. destruct Ht as [Ht|[<-|[]]]; [apply IH; assumption|assumption].
+Qed.
+
+Lemma step_lost : forall s e s', step s e = Some s' -> is_flush_timeout e = false -> lost s' = lost s.
+Proof.
+  intros s e s' H N. destruct e; try discriminate N; step_inv H; unfold_locs; try reflexivity.
+  all: destruct o; reflexivity.
+Qed.
+
